@@ -3,7 +3,7 @@
 # visitor, for every input stream of every length:
 #     the method shows the visitor exactly the value the wire format prescribes for the bytes at the front of the stream,
 #     consumes exactly those bytes (never one more), and otherwise fails with the error kind of the first violated rule.
-# The visitor is abstract: `on_X(v)` is whatever it answers when shown v; the contract says r == visitor.on_X(<decoded value>).
+# The visitor is abstract: `on_X(v)` is whatever it answers when shown v; the contract says r == §V§.on_X(<decoded value>).
 # Callees proved elsewhere appear with their real signature and that contract (`assumed=`): try_take_varint_* (unit devarint),
 # de_zig_zag_iN (unit zigzag).
 import importlib.util as _ilu, os as _os
@@ -31,13 +31,14 @@ HINT = """        proof {
 
 
 def method(name, ensures, extra=(), inserts=()):
+    ensures = ensures.replace("§V§", "§p2§" if name in ("deserialize_unit_struct", "deserialize_newtype_struct") else "§p1§")
     return dict(inserts=list(inserts), kind="fn", file=F, within=IMPL_DE, name=name, qual="postcard::de::deserializer::<impl de::Deserializer for &mut Deserializer<F>>::" + name,
                 rewrites=[RECV, NAME] + list(extra), sig="        ensures\n" + ensures + "   // @obl:C03.V.dekind." + name, obls=["C03.V.dekind." + name])
 
 
 def varint_kind(name, w, val):
     return method(name, """            match dec_%(w)s(%(o)s) {
-                DecRes::Ok(v, used) => r == visitor.on_%(t)s(%(val)s) && final_rem_ok(%(o)s, %(n)s, used),
+                DecRes::Ok(v, used) => r == §V§.on_%(t)s(%(val)s) && final_rem_ok(%(o)s, %(n)s, used),
                 DecRes::End => r == %(e1)s,
                 DecRes::Bad => r == %(e2)s,
             },""" % dict(w=w, o=ORIG, n=NOW, t=name[len("deserialize_"):], val=val, e1=ERR % "DeserializeUnexpectedEnd", e2=ERR % "DeserializeBadVarint"))
@@ -137,36 +138,36 @@ UNIT = dict(
              assumed="unit devarint (C03.V.de.take_usize)",
              sig="        ensures matches_dec(r, %s, %s, match dec_u64(%s) { DecRes::Ok(v, u) => DecRes::Ok(v as usize, u), DecRes::End => DecRes::End, DecRes::Bad => DecRes::Bad })" % (ORIG, NOW, ORIG)),
         method("deserialize_bool", """            %(o)s.len() == 0 ==> r == %(e1)s,
-            %(o)s.len() > 0 && %(o)s[0] == 0 ==> r == visitor.on_bool(false) && final_rem_ok(%(o)s, %(n)s, 1),
-            %(o)s.len() > 0 && %(o)s[0] == 1 ==> r == visitor.on_bool(true) && final_rem_ok(%(o)s, %(n)s, 1),
+            %(o)s.len() > 0 && %(o)s[0] == 0 ==> r == §V§.on_bool(false) && final_rem_ok(%(o)s, %(n)s, 1),
+            %(o)s.len() > 0 && %(o)s[0] == 1 ==> r == §V§.on_bool(true) && final_rem_ok(%(o)s, %(n)s, 1),
             %(o)s.len() > 0 && %(o)s[0] > 1 ==> r == %(e3)s,""" % dict(o=ORIG, n=NOW, e1=ERR % "DeserializeUnexpectedEnd", e3=ERR % "DeserializeBadBool")),
         method("deserialize_u8", """            %(o)s.len() == 0 ==> r == %(e1)s,
-            %(o)s.len() > 0 ==> r == visitor.on_u8(%(o)s[0]) && final_rem_ok(%(o)s, %(n)s, 1),""" % dict(o=ORIG, n=NOW, e1=ERR % "DeserializeUnexpectedEnd")),
+            %(o)s.len() > 0 ==> r == §V§.on_u8(%(o)s[0]) && final_rem_ok(%(o)s, %(n)s, 1),""" % dict(o=ORIG, n=NOW, e1=ERR % "DeserializeUnexpectedEnd")),
         method("deserialize_i8", """            %(o)s.len() == 0 ==> r == %(e1)s,
-            %(o)s.len() > 0 ==> r == visitor.on_i8(%(o)s[0] as i8) && final_rem_ok(%(o)s, %(n)s, 1),""" % dict(o=ORIG, n=NOW, e1=ERR % "DeserializeUnexpectedEnd")),
+            %(o)s.len() > 0 ==> r == §V§.on_i8(%(o)s[0] as i8) && final_rem_ok(%(o)s, %(n)s, 1),""" % dict(o=ORIG, n=NOW, e1=ERR % "DeserializeUnexpectedEnd")),
     ] + [varint_kind("deserialize_u%d" % b, "u%d" % b, "v") for b in [16, 32, 64, 128]
     ] + [varint_kind("deserialize_i%d" % b, "u%d" % b, "unzz(v as nat) as i%d" % b) for b in [16, 32, 64, 128]
     ] + [
         method("deserialize_bytes", LEN_PREFIXED % dict(o=ORIG, e1=ERR % "DeserializeUnexpectedEnd", e2=ERR % "DeserializeBadVarint",
-               ok="r == visitor.on_bytes(%s.subrange(used, used + n)) && final_rem_ok(%s, %s, used + n)" % (ORIG, ORIG, NOW)),
+               ok="r == §V§.on_bytes(%s.subrange(used, used + n)) && final_rem_ok(%s, %s, used + n)" % (ORIG, ORIG, NOW)),
                inserts=[(r"before:\w+\.visit_borrowed_bytes", HINT)]),
         method("deserialize_byte_buf", LEN_PREFIXED % dict(o=ORIG, e1=ERR % "DeserializeUnexpectedEnd", e2=ERR % "DeserializeBadVarint",
-               ok="r == visitor.on_bytes(%s.subrange(used, used + n)) && final_rem_ok(%s, %s, used + n)" % (ORIG, ORIG, NOW))),
+               ok="r == §V§.on_bytes(%s.subrange(used, used + n)) && final_rem_ok(%s, %s, used + n)" % (ORIG, ORIG, NOW))),
         method("deserialize_str", LEN_PREFIXED % dict(o=ORIG, e1=ERR % "DeserializeUnexpectedEnd", e2=ERR % "DeserializeBadVarint",
-               ok="if utf8_ok(%(o)s.subrange(used, used + n)) { r == visitor.on_str(%(o)s.subrange(used, used + n)) && final_rem_ok(%(o)s, %(nw)s, used + n) } else { r == %(e)s }"
+               ok="if utf8_ok(%(o)s.subrange(used, used + n)) { r == §V§.on_str(%(o)s.subrange(used, used + n)) && final_rem_ok(%(o)s, %(nw)s, used + n) } else { r == %(e)s }"
                   % dict(o=ORIG, nw=NOW, e=ERR % "DeserializeBadUtf8")),
                extra=[(r"core::str::from_utf8\((\w+)\)\s*\.map_err\(\|_\| Error::DeserializeBadUtf8\)", r"from_utf8_or_bad(\1)", 1, 1)],   # D19
                inserts=[(r"before:let \w+ = from_utf8_or_bad", HINT)]),
         method("deserialize_string", LEN_PREFIXED % dict(o=ORIG, e1=ERR % "DeserializeUnexpectedEnd", e2=ERR % "DeserializeBadVarint",
-               ok="if utf8_ok(%(o)s.subrange(used, used + n)) { r == visitor.on_str(%(o)s.subrange(used, used + n)) && final_rem_ok(%(o)s, %(nw)s, used + n) } else { r == %(e)s }"
+               ok="if utf8_ok(%(o)s.subrange(used, used + n)) { r == §V§.on_str(%(o)s.subrange(used, used + n)) && final_rem_ok(%(o)s, %(nw)s, used + n) } else { r == %(e)s }"
                   % dict(o=ORIG, nw=NOW, e=ERR % "DeserializeBadUtf8"))),
         method("deserialize_option", """            %(o)s.len() == 0 ==> r == %(e1)s,
-            %(o)s.len() > 0 && %(o)s[0] == 0 ==> r == visitor.on_none() && final_rem_ok(%(o)s, %(n)s, 1),
-            %(o)s.len() > 0 && %(o)s[0] == 1 ==> (r, %(n)s) == visitor.on_some(%(o)s.drop_first()),
+            %(o)s.len() > 0 && %(o)s[0] == 0 ==> r == §V§.on_none() && final_rem_ok(%(o)s, %(n)s, 1),
+            %(o)s.len() > 0 && %(o)s[0] == 1 ==> (r, %(n)s) == §V§.on_some(%(o)s.drop_first()),
             %(o)s.len() > 0 && %(o)s[0] > 1 ==> r == %(e3)s,""" % dict(o=ORIG, n=NOW, e1=ERR % "DeserializeUnexpectedEnd", e3=ERR % "DeserializeBadOption")),
-        method("deserialize_unit", "            r == visitor.on_unit() && %s == %s," % (NOW, ORIG)),
-        method("deserialize_unit_struct", "            r == visitor.on_unit() && %s == %s," % (NOW, ORIG)),
-        method("deserialize_newtype_struct", "            (r, %s) == visitor.on_newtype(%s)," % (NOW, ORIG)),
+        method("deserialize_unit", "            r == §V§.on_unit() && %s == %s," % (NOW, ORIG)),
+        method("deserialize_unit_struct", "            r == §V§.on_unit() && %s == %s," % (NOW, ORIG)),
+        method("deserialize_newtype_struct", "            (r, %s) == §V§.on_newtype(%s)," % (NOW, ORIG)),
         dict(kind="raw", name="<impl-close>", text="}\n"),
     ],
 )
